@@ -162,6 +162,150 @@ impl AsyncRead for SimPipe {
     }
 }
 
+// ------------------------------------------------------------------ datagrams (UDP arm)
+
+/// One segment = one datagram, handed over whole (the socket layer cuts it to
+/// the caller's buffer). A socket has no end of stream: after the last
+/// datagram it stays silent, or fails when the plan says so.
+pub struct SimDatagrams {
+    data: Arc<Vec<u8>>,
+    pos: usize,
+    segs: Vec<Seg>,
+    seg_i: usize,
+    ready_at: Option<u64>,
+    end: End,
+    pub stats: Arc<Mutex<PipeStats>>,
+}
+
+impl futures_util::stream::Stream for SimDatagrams {
+    type Item = std::io::Result<Vec<u8>>;
+    fn poll_next(mut self: Pin<&mut Self>, cx: &mut Context<'_>) -> Poll<Option<Self::Item>> {
+        let this = &mut *self;
+        while this.seg_i < this.segs.len() && this.segs[this.seg_i].len == 0 {
+            this.seg_i += 1;
+        }
+        if this.seg_i >= this.segs.len() || this.pos >= this.data.len() {
+            let mut st = this.stats.lock().unwrap();
+            st.all_delivered = true;
+            return match this.end {
+                End::Open | End::Eof => Poll::Pending,
+                End::Reset(k) => {
+                    st.ended = true;
+                    exec::log_u64(0xE55 + k as u64);
+                    Poll::Ready(Some(Err(std::io::Error::new(std::io::ErrorKind::ConnectionReset, "simulated"))))
+                }
+            };
+        }
+        let seg = this.segs[this.seg_i].clone();
+        let at = *this.ready_at.get_or_insert(exec::now_ns() + seg.delay_ns);
+        if exec::now_ns() < at {
+            exec::wake_at(at, cx.waker().clone());
+            return Poll::Pending;
+        }
+        this.ready_at = None;
+        this.seg_i += 1;
+        let n = seg.len.min(this.data.len() - this.pos);
+        let d = this.data[this.pos..this.pos + n].to_vec();
+        this.pos += n;
+        {
+            let mut st = this.stats.lock().unwrap();
+            st.reads += 1;
+            st.bytes += n as u64;
+            if seg.delay_ns > 0 {
+                st.stalls += 1;
+            }
+        }
+        exec::log_u64(0xDA00_0000 | n as u64);
+        Poll::Ready(Some(Ok(d)))
+    }
+}
+
+/// The server side of a websocket connection after the handshake: every
+/// segment becomes one unmasked binary message (FIN set); the byte stream is
+/// delivered message by message with the segment's delay and read cap.
+fn websocket_wire(data: &[u8], segs: &[Seg]) -> (Vec<u8>, Vec<Seg>) {
+    let mut wire = Vec::new();
+    let mut out = Vec::new();
+    let mut pos = 0usize;
+    for s in segs {
+        let n = s.len.min(data.len() - pos);
+        if n == 0 {
+            continue;
+        }
+        let start = wire.len();
+        wire.push(0x82);
+        if n < 126 {
+            wire.push(n as u8);
+        } else if n < 65536 {
+            wire.push(126);
+            wire.extend_from_slice(&(n as u16).to_be_bytes());
+        } else {
+            wire.push(127);
+            wire.extend_from_slice(&(n as u64).to_be_bytes());
+        }
+        wire.extend_from_slice(&data[pos..pos + n]);
+        pos += n;
+        out.push(Seg { len: wire.len() - start, delay_ns: s.delay_ns, spurious: s.spurious, read_cap: s.read_cap });
+    }
+    (wire, out)
+}
+
+const SIM_ADDR: &str = "sim.invalid:30005";
+
+/// The data source the plan asks for, obtained the way `beast::receiver`
+/// obtains it (connect / bind / connect_async on the simulated network)
+async fn open_source(transport: u8, wire: Arc<Vec<u8>>, segs: Vec<Seg>, end: End, stats_out: Rc<RefCell<Option<Arc<Mutex<PipeStats>>>>>) -> DataSource {
+    use rs1090::source::verif_net::{self, Peer};
+    match transport {
+        1 => {
+            let pipe = SimPipe::new(wire, segs, end);
+            *stats_out.borrow_mut() = Some(pipe.stats.clone());
+            verif_net::register(SIM_ADDR, Peer::Tcp(Box::pin(pipe)));
+            DataSource::Tcp(verif_net::TcpStream::connect(SIM_ADDR).await.expect("simulated connect"))
+        }
+        2 => {
+            let stats = Arc::new(Mutex::new(PipeStats::default()));
+            *stats_out.borrow_mut() = Some(stats.clone());
+            let d = SimDatagrams { data: wire, pos: 0, segs, seg_i: 0, ready_at: None, end, stats };
+            verif_net::register(SIM_ADDR, Peer::Udp(Box::pin(d)));
+            DataSource::Udp(verif_net::UdpSocket::bind(SIM_ADDR).await.expect("simulated bind"))
+        }
+        3 => {
+            let (w, s) = websocket_wire(&wire, &segs);
+            let pipe = SimPipe::new(Arc::new(w), s, end);
+            *stats_out.borrow_mut() = Some(pipe.stats.clone());
+            let url = format!("ws://{}/beast", SIM_ADDR);
+            verif_net::register(&url, Peer::Websocket(Box::pin(pipe)));
+            let (ws, _) = verif_net::connect_async(&url).await.expect("simulated websocket");
+            let (_, rx) = ws.split();
+            DataSource::Websocket(rx)
+        }
+        _ => {
+            let pipe = SimPipe::new(wire, segs, end);
+            *stats_out.borrow_mut() = Some(pipe.stats.clone());
+            DataSource::Verif(Box::pin(pipe))
+        }
+    }
+}
+
+/// A datagram longer than the reader's buffer is cut by the socket layer
+/// before any read chunk exists: the UDP arm is offered datagrams of at most
+/// 1024 bytes.
+fn datagram_sized(segs: &[Seg]) -> Vec<Seg> {
+    let mut out = Vec::new();
+    for s in segs {
+        let mut left = s.len;
+        let mut first = true;
+        while left > 0 {
+            let n = left.min(1024);
+            out.push(Seg { len: n, delay_ns: if first { s.delay_ns } else { 0 }, spurious: false, read_cap: 0 });
+            first = false;
+            left -= n;
+        }
+    }
+    out
+}
+
 // ------------------------------------------------------------------ plan
 
 #[derive(Clone, Debug, Serialize, Deserialize, PartialEq)]
@@ -186,6 +330,12 @@ pub struct C09Plan {
     pub flush: bool,
     pub mode: Mode,
     pub sched: SchedSpec,
+    /// which arm of next_msg reads the bytes: 0 = DataSource::Verif (hook H2),
+    /// 1 = the TCP arm, 2 = the UDP arm (one segment = one datagram), 3 = the
+    /// websocket arm (one segment = one binary message); 1-3 through the
+    /// simulated sockets of hook H8
+    #[serde(default)]
+    pub transport: u8,
 }
 
 pub struct C09;
@@ -349,17 +499,20 @@ struct ExecResult {
     log: u64,
 }
 
-fn run_once(wire: &Arc<Vec<u8>>, segs: &[Seg], end: &End, sched: &SchedSpec) -> ExecResult {
+fn run_once(transport: u8, wire: &Arc<Vec<u8>>, segs: &[Seg], end: &End, sched: &SchedSpec) -> ExecResult {
     let mut sim = Sim::new(sched);
-    let pipe = SimPipe::new(wire.clone(), segs.to_vec(), end.clone());
-    let stats = pipe.stats.clone();
+    rs1090::source::verif_net::clear();
+    let segs: Vec<Seg> = if transport == 2 { datagram_sized(segs) } else { segs.to_vec() };
+    let stats_slot: Rc<RefCell<Option<Arc<Mutex<PipeStats>>>>> = Rc::new(RefCell::new(None));
+    let nsegs = segs.len();
     let items: Rc<RefCell<Vec<Vec<u8>>>> = Rc::new(RefCell::new(Vec::new()));
     let ended = Rc::new(RefCell::new(false));
     {
         let items = items.clone();
         let ended = ended.clone();
+        let (wire, end, slot) = (wire.clone(), end.clone(), stats_slot.clone());
         sim.spawn("beast::next_msg(real)+consumer", async move {
-            let s = next_msg(DataSource::Verif(Box::pin(pipe))).await;
+            let s = next_msg(open_source(transport, wire, segs, end, slot).await).await;
             pin_mut!(s);
             while let Some(m) = s.next().await {
                 exec::log_bytes(&m);
@@ -368,9 +521,12 @@ fn run_once(wire: &Arc<Vec<u8>>, segs: &[Seg], end: &End, sched: &SchedSpec) -> 
             *ended.borrow_mut() = true;
         });
     }
-    let cap = 200 + 8 * wire.len() as u64 + 8 * segs.len() as u64;
+    let cap = 200 + 8 * wire.len() as u64 + 8 * nsegs as u64;
     let endr = sim.run(cap, |_, _, _| true);
-    let st = std::mem::take(&mut *stats.lock().unwrap());
+    let st = match stats_slot.borrow().as_ref() {
+        Some(s) => std::mem::take(&mut *s.lock().unwrap()),
+        None => PipeStats::default(),
+    };
     let r = ExecResult {
         items: items.borrow().clone(),
         stream_ended: *ended.borrow(),
@@ -618,8 +774,13 @@ fn one(
     reference: &Vec<Vec<u8>>,
     t: &mut Tally,
 ) -> Option<(Violation, C09Plan)> {
+    if plan.transport == 2 && end == End::Eof {
+        // a UDP socket has no end of stream
+        return None;
+    }
     let k: usize = segs.iter().map(|s| s.len).sum::<usize>().min(st.wire.len());
-    let r = run_once(&st.wire, &segs, &end, &plan.sched);
+    let r = run_once(plan.transport, &st.wire, &segs, &end, &plan.sched);
+    t.count(match plan.transport { 1 => "arm_tcp", 2 => "arm_udp", 3 => "arm_websocket", _ => "arm_verif" }, 1);
     t.evals += 1;
     t.sim_ns += r.sim_ns;
     t.steps += r.steps;
@@ -632,6 +793,7 @@ fn one(
     }
     let mut sig = Fnv::new();
     sig.bytes(&st.wire);
+    sig.u64(plan.transport as u64);
     for s in &segs {
         sig.u64(s.len as u64);
         sig.u64(s.delay_ns);
@@ -673,7 +835,7 @@ pub fn execute(plan: &C09Plan) -> Outcome<C09Plan> {
     };
     // reference execution: the whole stream in one piece (real code, not a model)
     let whole = vec![Seg { len: total, delay_ns: 0, spurious: false, read_cap: 0 }];
-    let refr = run_once(&st.wire, &whole, &End::Open, &SchedSpec::fifo());
+    let refr = run_once(plan.transport, &st.wire, &whole, &End::Open, &SchedSpec::fifo());
     t.evals += 1;
     let mut found: Option<(Violation, C09Plan)> = None;
     if let Some(v) = judge(&st, &refr, None, total, &End::Open) {
@@ -840,6 +1002,12 @@ impl Scenario for C09 {
             flush: rng.chance(0.5),
             mode,
             sched: SchedSpec::generate(rng, 64),
+            transport: match rng.below(10) {
+                0..=1 => 0,
+                2..=5 => 1,
+                6..=7 => 2,
+                _ => 3,
+            },
         }
     }
     fn execute(&self, plan: &C09Plan) -> Outcome<C09Plan> {
@@ -928,6 +1096,11 @@ impl Scenario for C09 {
             q.sched = SchedSpec::fifo();
             out.push(q);
         }
+        if p.transport != 1 {
+            let mut q = p.clone();
+            q.transport = 1;
+            out.push(q);
+        }
         // 4. simplify bytes: replace a non-1a byte (beyond the type byte) by 00
         for (fi, fh) in p.frames.iter().enumerate() {
             let f = unhex(fh);
@@ -965,14 +1138,16 @@ impl Scenario for C09 {
             rule: "One run = one generated sequence of well-formed Beast frames (types 1/2/3, 0x1a density and placement boosted) and a set of deliveries of its wire bytes through the simulated transport; one evaluation = one delivery (chunking + stalls + terminal fault) executed with the real next_msg under the simulator and compared with the expected frames and with the real code's own output for the one-piece delivery. Sweep runs enumerate EVERY single cut point, EVERY pair of cut points, and EOF / reset at EVERY byte offset of their stream (exhaustive per stream); Random runs draw multi-cut, dribble, >=1024-byte, stalled and short-read deliveries. Distinct = distinct hash of (wire bytes, segment lengths, delays, read caps, terminal fault). Non-trivial = some segment boundary falls strictly inside a frame, or a stall / short read / EOF / reset fired, AND at least one item was yielded and compared.",
             components: vec![
                 ("rs1090::source::beast::next_msg (async_stream reassembly state machine)", "real"),
-                ("tokio AsyncReadExt::read on DataSource::Verif (hook H2, same arm as TCP)", "real"),
-                ("socket / network", "stub (SimPipe: AsyncRead with exact segment boundaries, delays on the simulated clock, EOF, errors)"),
+                ("the TCP, UDP and websocket arms of next_msg, obtained through connect / bind / connect_async on the simulated network (hook H8); the copy of the TCP arm behind DataSource::Verif (hook H2)", "real"),
+                ("tungstenite's websocket framing between the simulated peer and the websocket arm", "real"),
+                ("socket / network", "stub (SimPipe: AsyncRead with exact segment boundaries, delays on the simulated clock, EOF, errors; SimDatagrams: one segment = one datagram of at most 1024 bytes; websocket peer: one segment = one binary message of any size)"),
                 ("consumer of the stream", "stub"),
-                ("UDP / websocket / ssh arms of next_msg", "not exercised"),
+                ("ssh-tunnelled arms of next_msg (feature ssh)", "not exercised"),
             ],
             assumptions: vec![
                 "frames are well-formed as the property states: type byte 0x31/0x32/0x33, every 0x1a after the first doubled",
                 "pending frames are measured in un-escaped bytes against the 23-byte look-ahead",
+                "UDP: a datagram is a read chunk only up to the 1024 bytes the reader asks the socket for; longer datagrams are not generated. Websocket: a binary message of any size is a read chunk; pings, text and close messages are not part of a sequence of Beast frames and are not generated",
             ],
             fault_kinds: vec!["cut", "dribble", "big", "stall", "spurious_wake", "short_read", "eof", "reset"],
             probes: vec![
@@ -983,6 +1158,10 @@ impl Scenario for C09 {
                 "read_ge_1024",
                 "stream_with_literal_1a_run",
                 "flush_mode",
+                "arm_tcp",
+                "arm_udp",
+                "arm_websocket",
+                "arm_verif",
             ],
         }
     }
